@@ -17,8 +17,11 @@ def setup_env(boundscheck: bool = False) -> None:
         os.environ["NUMBA_BOUNDSCHECK"] = "1"
     else:
         os.environ.pop("NUMBA_BOUNDSCHECK", None)
-    if "/repo" not in sys.path:
-        sys.path.insert(0, "/repo")
+    # the code under test is /repo's working tree; VERIF_REPO (used only by tools/try_seed_wt.sh to try a seeded
+    # change in a scratch worktree while /repo is busy) may point to another checkout
+    repo = os.environ.get("VERIF_REPO", "/repo")
+    if repo not in sys.path:
+        sys.path.insert(0, repo)
 
 
 def seed_of(default: int = 1) -> int:
